@@ -39,6 +39,7 @@ type kase struct {
 	advAsleep   bool // the last external addition came while Run was blocked on checkBlocks or between its height read and lock section ...
 	sigAfterAdv bool // ... and a Put signalled since then
 	staleInsert bool // a producer with a stale height got an index past its window check that the chain had passed
+	pendingNotify int // external additions the server has not told the queue about yet
 	slotReuse   bool // a Put went into the slot of the element Run holds between its two lock sections (same slot, higher index)
 	ahead   bool
 	nextTag int
@@ -128,7 +129,27 @@ func (c *kase) doAdv() {
 		c.o.Count("adv:while-run-blocked")
 	}
 	c.r.advance()
+	// Server.relayBlocksLoop hears of the block from the ledger's subscription and calls Queue.Notify (aea938c):
+	// some time later, so it is a step of its own (delivered at a random later point, at the latest before the
+	// end-of-case oracle)
+	c.pendingNotify++
 	c.line("adv", "")
+}
+
+// doNotify delivers one pending notification of an external addition.
+func (c *kase) doNotify() {
+	c.pendingNotify--
+	n, ok := any(c.r.q).(interface{ Notify() })
+	if !ok {
+		return // a queue without Notify (the code before aea938c)
+	}
+	n.Notify()
+	if c.r.st == pWait {
+		c.r.settle() // Run may have been woken
+	}
+	c.sigAfterAdv = true
+	c.o.Count("op:notify")
+	c.line("notify", "")
 }
 
 func (c *kase) doQuiesce() {
@@ -152,6 +173,9 @@ func (c *kase) finalChecks() {
 	}
 	if r.disc {
 		return
+	}
+	for c.pendingNotify > 0 { // every external addition is eventually followed by its notification
+		c.doNotify()
 	}
 	c.doQuiesce()
 	h := r.height()
@@ -363,6 +387,9 @@ func genCase(c *kase, r *prng.R) {
 	// producers walk upwards with jitter; "next" is what a well-behaved peer would send next
 	next := h0 + 1
 	for i := 0; i < nOps; i++ {
+		if c.pendingNotify > 0 && r.Chance(1, 3) {
+			c.doNotify()
+		}
 		if i == discardAt {
 			c.r.discard()
 			c.line("disc", "")
